@@ -163,6 +163,17 @@ def D2_type_counts(repo, clause, kinds=("atom",) + KINDS, pair=True):
             else:
                 empty = any(_implies_empty(c, table_len) for c in conds)
                 ok = empty
+                if empty and val != ("const", 0) and k != "atom":
+                    # fallback when no coefficient table exists: every id in use must be below the count
+                    types_attr = ("attr", P("self"), "%s_types" % k)
+                    want = nz.norm(("add", ("const", 1), ("call", "max", ("args", types_attr), ("kws",))))
+                    alt = nz.norm(("add", ("const", 1), ("mcall", types_attr, "max", ("args",), ("kws",))))
+                    if val not in (want, alt):
+                        ok = False
+                        why = "fallback count without a coefficient table is %s; it must be max(self.%s_types) + 1 so that every type id in use is declared" % (_short(val, 80), k)
+                        obs.append(Ob("D2", clause, fn, fn.node, ok, "leaf #%d of num_%s_types: %s" % (i, k, why),
+                                      construct="def num_%s_types: leaf %d" % (k, i), slot="%s:leaf%d" % (k, i)))
+                        continue
                 why = ("returns %s on a path where the table is known to be empty" % _short(val, 60)) if empty else \
                     ("returns %s although self.%s may be NON-EMPTY on this path (conditions: %s): the count is then smaller than the table, "
                      "so merged type ids point at old rows and the written header disagrees with the Coeffs section"
